@@ -355,8 +355,15 @@ def op_text(model, sg, op, kind):
         x, o = T[ins[0]], T[outs[0]]
         si, _ = one_scale(x, kind)
         so, zo = one_scale(o, kind)
-        if x["type"] not in ("int8", "uint8") or o["type"] != x["type"]:
+        if x["type"] not in ("int8", "uint8", "int16") or o["type"] != x["type"]:
             raise NotSimulated(f"SOFTMAX:{x['type']}_to_{o['type']}")
+        if x["type"] == "int16":
+            if f32bits(so) != 0x38000000 or zo != 0 or qparams(x)[1][0] != 0:
+                raise NotSimulated("SOFTMAX:output_quantisation")
+            beta = f32(opt(op, 0, "f", 0.0))
+            # float product, double quotient (activations.cc SoftmaxPrepare)
+            m, ls = quantize_multiplier(np.float64(f32(si * beta)) / (10.0 / 65535.0))
+            return kind, ins, outs, [[m, ls, 0, f32bits(beta)]]
         if f32bits(so) != 0x3B800000 or zo != QRANGE[o["type"]][0]:
             raise NotSimulated("SOFTMAX:output_quantisation")        # the reference kernels reject it
         beta = f32(opt(op, 0, "f", 0.0))
